@@ -394,6 +394,145 @@ fn gen_chain_case(rng: &mut Rng, big: bool) -> (Vec<Vec<u8>>, Vec<Op>, bool) {
     (vols, ops, rng.chance(1, 10))
 }
 
+
+/// Family "border": every volume is read before (so that the inner readers are left at arbitrary
+/// offsets), then reads whose size is the distance from the current position to the next volume border
+/// (sometimes +-1) are followed by seeks whose target lies inside the volume that has just become current
+/// (or inside the current / the previous one), then reads again.  The generator tracks the position the
+/// way one file would (single reads end at a volume border).
+fn gen_border_case(rng: &mut Rng, big: bool) -> (Vec<Vec<u8>>, Vec<Op>, bool) {
+    let k = rng.range(2, if big { 6 } else { 5 }) as usize;
+    let mut vols: Vec<Vec<u8>> = vec![];
+    let mut next = rng.below(100) as u8;
+    for _ in 0..k {
+        let n = if rng.chance(1, 10) { 0 } else { rng.range(1, if big { 9 } else { 6 }) };
+        vols.push((0..n).map(|_| { next = next.wrapping_add(1); next }).collect());
+    }
+    let len: u64 = vols.iter().map(|v| v.len() as u64).sum();
+    if len == 0 {
+        vols[0] = vec![1, 2, 3];
+    }
+    let len: u64 = vols.iter().map(|v| v.len() as u64).sum();
+    // borders: start offsets of the non-empty volumes, and the end
+    let mut starts: Vec<u64> = vec![];
+    let mut acc = 0u64;
+    for v in &vols {
+        if !v.is_empty() {
+            starts.push(acc);
+        }
+        acc += v.len() as u64;
+    }
+    let vol_of = |p: u64| -> (u64, u64) {
+        // [start, end) of the volume holding p (the last one for p = len)
+        let mut s = 0u64;
+        let mut e = len;
+        for (i, st) in starts.iter().enumerate() {
+            if *st <= p {
+                s = *st;
+                e = if i + 1 < starts.len() { starts[i + 1] } else { len };
+            }
+        }
+        (s, e)
+    };
+    let mut ops: Vec<Op> = vec![];
+    let mut pos: u64 = 0;
+    // phase 1: read through all / most of the volumes
+    match rng.below(4) {
+        0 => {
+            ops.push(Op::ReadToEnd);
+            pos = len;
+        }
+        1 => {
+            let n = len - rng.below(2).min(len);
+            ops.push(Op::ReadFull(n));
+            pos = n;
+        }
+        _ => {
+            // volume by volume with single reads, sometimes leaving a rest
+            while pos < len {
+                let (_, e) = vol_of(pos);
+                let want = (e - pos) + rng.below(3);
+                ops.push(Op::Read(want));
+                pos = e.min(pos + want);
+                if rng.chance(1, 8) {
+                    break;
+                }
+            }
+        }
+    }
+    let push_seek = |rng: &mut Rng, ops: &mut Vec<Op>, pos: &mut u64, t: u64| {
+        let op = match rng.below(3) {
+            0 => Op::Start(t),
+            1 => Op::Cur(t as i64 - *pos as i64),
+            _ => Op::End(t as i64 - len as i64),
+        };
+        ops.push(op);
+        *pos = t;
+    };
+    // go somewhere: mostly the start of the chain or of a volume
+    let t = match rng.below(4) {
+        0 => 0,
+        1 => rng.below(len + 1),
+        _ => *rng.pick(&starts),
+    };
+    push_seek(rng, &mut ops, &mut pos, t);
+    // phase 2
+    for _ in 0..rng.range(1, if big { 5 } else { 3 }) {
+        if pos >= len {
+            let t = *rng.pick(&starts);
+            push_seek(rng, &mut ops, &mut pos, t);
+        }
+        // read up to the next border (+-1)
+        let (_, e) = vol_of(pos);
+        let dist = e - pos;
+        let n = match rng.below(8) {
+            0 => dist.saturating_sub(1),
+            1 => dist + 1,
+            _ => dist,
+        };
+        if rng.chance(3, 4) {
+            ops.push(Op::Read(n));
+            pos = e.min(pos + n);
+        } else {
+            ops.push(Op::ReadFull(n));
+            pos = len.min(pos + n);
+        }
+        if rng.chance(1, 6) {
+            ops.push(Op::Cur(0));
+        }
+        // seek into the volume that is current now (sometimes the one before / anywhere)
+        let (s, e) = if pos < len { vol_of(pos) } else { (0, len) };
+        let t = match rng.below(8) {
+            0 => rng.below(len + 1),
+            1 => s,
+            2 => s.saturating_sub(1),
+            _ => s + rng.below((e - s).max(1)),
+        };
+        push_seek(rng, &mut ops, &mut pos, t);
+        // and read there
+        match rng.below(4) {
+            0 => {
+                ops.push(Op::ReadToEnd);
+                pos = len;
+            }
+            1 => {
+                let n = rng.below(len + 2);
+                ops.push(Op::ReadFull(n));
+                pos = len.min(pos + n);
+            }
+            _ => {
+                let n = 1 + rng.below(4);
+                ops.push(Op::Read(n));
+                if pos < len {
+                    let (_, e) = vol_of(pos);
+                    pos = e.min(pos + n);
+                }
+            }
+        }
+    }
+    (vols, ops, rng.chance(1, 10))
+}
+
 /// all ways to cut `data` into exactly k consecutive (possibly empty) volumes
 fn all_splits(data: &[u8], k: usize) -> Vec<Vec<Vec<u8>>> {
     if k == 1 {
@@ -425,6 +564,10 @@ fn chain_corpus(sink: &mut Sink) {
         false,
         "repo_unit_test",
     );
+    // a seek inside the volume that became current by a read ending exactly on its border, after that volume
+    // had been read before (a relative fast path in seek_abs would start from the stale inner position)
+    record_chain(sink, vec![b("hello"), b("world"), b("!")], vec![Op::ReadToEnd, Op::Start(0), Op::Read(5), Op::Cur(2), Op::ReadToEnd], false, "witness_border_then_seek_inside");
+    record_chain(sink, vec![b("hello"), b("world"), b("!")], vec![Op::ReadFull(11), Op::Start(0), Op::Read(5), Op::Start(7), Op::Read(2), Op::End(-1), Op::Read(1)], true, "witness_border_then_seek_inside");
     record_chain(sink, vec![b("hello"), b(""), b("world"), b(""), b(""), b("!")], vec![Op::Read(7), Op::Cur(0), Op::Read(7), Op::Cur(0), Op::ReadFull(7), Op::Cur(0), Op::Read(1)], true, "boundary");
     record_chain(sink, vec![], vec![Op::Read(1), Op::Start(5), Op::End(-1), Op::ReadToEnd, Op::Cur(0)], false, "boundary");
     record_chain(sink, vec![b(""), b("")], vec![Op::Read(1), Op::Start(5), Op::End(-1), Op::ReadToEnd, Op::Cur(0)], true, "boundary");
@@ -851,6 +994,40 @@ fn conflict_possible(ps: &[Presented], pre: &Tree, remaining: &Option<Vec<String
     files.iter().any(|f| dirs.contains(f))
 }
 
+/// flag in `vols_seed`: cut the archive where members start/end (local header starts, data starts, the
+/// central directory) instead of at random offsets
+const MEMBER_SPLIT: u64 = 1 << 62;
+fn split_at_members(rng: &mut Rng, bytes: &[u8]) -> Vec<Vec<u8>> {
+    let mut cand: Vec<usize> = vec![];
+    if let Ok(mut za) = zip::ZipArchive::new(Cursor::new(bytes.to_vec())) {
+        for i in 0..za.len() {
+            if let Ok(f) = za.by_index_raw(i) {
+                cand.push(f.header_start() as usize);
+                if rng.chance(1, 4) {
+                    cand.push(f.data_start() as usize);
+                }
+                cand.push((f.data_start() + f.compressed_size()) as usize);
+            }
+        }
+    }
+    cand.retain(|c| *c > 0 && *c < bytes.len());
+    cand.sort();
+    cand.dedup();
+    let mut cuts: Vec<usize> = cand.iter().filter(|_| rng.chance(2, 3)).cloned().collect();
+    if cuts.is_empty() && !cand.is_empty() {
+        cuts.push(*rng.pick(&cand));
+    }
+    cuts.truncate(6);
+    let mut v = vec![];
+    let mut prev = 0;
+    for c in cuts {
+        v.push(bytes[prev..c].to_vec());
+        prev = c;
+    }
+    v.push(bytes[prev..].to_vec());
+    v
+}
+
 fn split_volumes(rng: &mut Rng, bytes: &[u8]) -> Vec<Vec<u8>> {
     match rng.below(3) {
         0 => vec![bytes.to_vec()],
@@ -951,7 +1128,13 @@ fn record_extract(sink: &mut Sink, ms_in: &[MSpec], dup: &[(String, String)], pr
     let t_copy = sb.outer.join("t_before");
     copy_tree(&sb.t, &t_copy);
     let mut vrng = Rng::new(vols_seed);
-    let vols = if vols_seed == 0 { vec![bytes.clone()] } else { split_volumes(&mut vrng, &bytes) };
+    let vols = if vols_seed == 0 {
+        vec![bytes.clone()]
+    } else if vols_seed & MEMBER_SPLIT != 0 {
+        split_at_members(&mut vrng, &bytes)
+    } else {
+        split_volumes(&mut vrng, &bytes)
+    };
     let nvols = vols.len();
     let rn_map: HashMap<String, String> = rn.iter().cloned().collect();
     let cancel = Arc::new(AtomicBool::new(false));
@@ -990,7 +1173,10 @@ fn record_extract(sink: &mut Sink, ms_in: &[MSpec], dup: &[(String, String)], pr
     let cfilter = copt(filter.as_ref().map(|f| clist(&f.iter().map(|s| cstr(s)).collect::<Vec<_>>())));
     let crn = clist(&rn.iter().map(|(a, b)| format!("({}, {})", cstr(a), cstr(b))).collect::<Vec<_>>());
     let input_coq = format!("CExtract {} {} {} {}", inside, cfilter, crn, cmembers(&ps));
-    let mut tags = vec!["extract_to_dir".to_string(), format!("archive_volumes{}", nvols)];
+    let mut tags = vec!["extract_to_dir".to_string(), format!("archive_volumes{}", nvols.min(5))];
+    if vols_seed & MEMBER_SPLIT != 0 {
+        tags.push("volumes_cut_at_member_boundaries".into());
+    }
     let hostile = name_tags(&ps, &mut tags);
     if filter.is_some() {
         tags.push("with_filter".into())
@@ -1253,7 +1439,28 @@ fn gen_extract_case(rng: &mut Rng, sink: &mut Sink) {
         }
     }
     let rn = if rng.chance(1, 6) && !file_names.is_empty() { vec![(rng.pick(&file_names).clone(), "renamed.bin".to_string())] } else { vec![] };
-    record_extract(sink, &ms, &dup, &pre, filter, rn, rng.next(), "");
+    let seed = if rng.chance(1, 3) { (rng.next() | MEMBER_SPLIT) & !(1 << 63) } else { rng.next() & !MEMBER_SPLIT & !(1 << 63) } | 1;
+    record_extract(sink, &ms, &dup, &pre, filter, rn, seed, "");
+}
+
+/// plain archives (2..5 stored or deflated regular members, no filter) whose volumes are cut exactly where
+/// members begin or end: reading a member then ends on a volume border and the next access seeks into a
+/// volume that was read before (while the central directory / local headers were parsed)
+fn gen_member_split_case(rng: &mut Rng, sink: &mut Sink) {
+    let n = rng.range(2, 5) as usize;
+    let mut ms = vec![];
+    for i in 0..n {
+        let len = rng.range(1, 40);
+        ms.push(MSpec {
+            name: format!("{}m{}.dlt", if rng.chance(1, 3) { "dir/" } else { "" }, i),
+            kind: 0,
+            data: (0..len).map(|j| (i as u8 + 1).wrapping_mul(37).wrapping_add(j as u8)).collect(),
+            deflate: rng.chance(1, 4),
+        });
+    }
+    let filter = if rng.chance(1, 4) { Some(ms.iter().skip(1).map(|m| m.name.clone()).collect()) } else { None };
+    let seed = ((rng.next() | MEMBER_SPLIT) & !(1 << 63)) | 1;
+    record_extract(sink, &ms, &[], &[], filter, vec![], seed, "family_member_boundary_split");
 }
 
 const PATTERNS: &[&str] = &["**/*", "*", "*.dlt", "**/*.dlt", "dir/*", "dir/**/*.dlt", "a.dlt", "../*", "**/../*", "/**/*", "dir/c.dlt", "*/*", "[ab].dlt", "data", "x*", "..", "."];
@@ -1294,6 +1501,10 @@ fn extract_corpus(sink: &mut Sink) {
     }
     record_archives(sink, &[f("ok.dlt", b"ok"), f("../sentinel", b"evil"), f("../decoy/old.txt", b"evil")], &[], "arc", "**/*", false, 1, "witness_reported_outside");
     record_archives(sink, &[f("ok.dlt", b"ok"), f("../sentinel", b"evil")], &[], "arc", "../sentinel", true, 1, "witness_reported_outside");
+    // a valid 2-member stored archive cut into volumes exactly at the members' boundaries
+    for sd in [1u64, 2, 3, 4] {
+        record_extract(sink, &[f("one.dlt", b"first member"), f("two.dlt", b"second member")], &[], &[], None, vec![], MEMBER_SPLIT | sd, "witness_member_boundary_split");
+    }
     // already extracted members are reported and kept
     record_extract(sink, &[f("a.dlt", b"A"), f("dir/c.dlt", b"C")], &[], &[("a.dlt".into(), Some(b"A".to_vec()))], Some(vec!["a.dlt".into(), "dir/c.dlt".into()]), vec![], 1, "corpus_reuse");
     // aliases of one location: the last member wins, both are reported
@@ -1385,9 +1596,14 @@ fn main() {
     }
     let n = a.count.unwrap_or(if quick { 900 } else if search { 3000 } else { 20000 });
     let mut rng = Rng::new(a.seed);
-    for _ in 0..n {
-        let (vols, ops, files) = gen_chain_case(&mut rng, !quick);
-        record_chain(&mut sink, vols, ops, files, "");
+    for i in 0..n {
+        if i % 3 == 2 {
+            let (vols, ops, files) = gen_border_case(&mut rng, !quick);
+            record_chain(&mut sink, vols, ops, files, "family_border_then_seek_inside");
+        } else {
+            let (vols, ops, files) = gen_chain_case(&mut rng, !quick);
+            record_chain(&mut sink, vols, ops, files, "");
+        }
     }
     let n2 = a.count.map(|c| c / 4).unwrap_or(if quick { 160 } else if search { 500 } else { 3000 });
     let mut rng = Rng::new(a.seed ^ 0xC20);
@@ -1397,6 +1613,10 @@ fn main() {
         } else {
             gen_extract_case(&mut rng, &mut sink);
         }
+    }
+    let n4 = if quick { 60 } else if search { 200 } else { 1500 };
+    for _ in 0..n4 {
+        gen_member_split_case(&mut rng, &mut sink);
     }
     // archives whose first, skipped member has a size in the range where the offsets asked by the zip crate
     // collide with the number of bytes read so far
